@@ -102,7 +102,7 @@ def step (s0 : Sess) (c : Cmd) : Sess × String × String :=
   let v := c.nat "v" 0
   match c.op with
   | "new" | "new_default" =>
-    let (st, t, m) := Table.new m
+    let (st, t, m) := Table.new (if c.op == "new" then .conf else .libc) m
     let (sst, sp) := if c.fired > 0 then (Stat.errAlloc, none) else (Stat.ok, some StrMap.empty)
     let s' : Sess := { s with model := t, spec := sp, mem := m, it := none, cursor := none,
                               cmpK := if c.op == "new" then (c.str "cmp").getD "s" else "s" }
@@ -114,20 +114,20 @@ def step (s0 : Sess) (c : Cmd) : Sess × String × String :=
     match c.op, keyS with
     | "add", some _ =>
       let (st, t', m) := t.add cmp key v m
-      let r := sp.step (c.fired > 0) (.add key v [])
+      let r := sp.step { refused := c.fired > 0 } (.add key v [])
       fin { s with model := some t', spec := some r.2, mem := m, it := none, cursor := none }
         (fmtStat (r.1.st.getD .ok)) (fmtStat st)
     | "get", some _ =>
       let (st, out) := t.get cmp key
-      let r := sp.step false (.get key)
+      let r := sp.step {} (.get key)
       let h (st : Stat) (o : Option Nat) := match o with | some v => s!"{fmtStat st} out={v}" | none => fmtStat st
       fin s (h (r.1.st.getD .ok) r.1.val) (h st out)
     | "contains", some _ =>
-      let r := sp.step false (.contains key)
+      let r := sp.step {} (.contains key)
       fin s s!"st=- out={r.1.val.getD 0}" s!"st=- out={if t.containsKey cmp key then 1 else 0}"
     | "remove", some _ | "remove_noout", some _ =>
       let (st, out, t', m) := t.remove cmp key m
-      let r := sp.step false (.remove key)
+      let r := sp.step {} (.remove key)
       let h (st : Stat) (o : Option Nat) := match o with
         | some v => if c.op == "remove" then s!"{fmtStat st} out={v}" else fmtStat st
         | none => fmtStat st
